@@ -339,7 +339,7 @@ func (p *Program) RunHarness(fn *ssa.Function, opts Options) *HarnessResult {
 				hr.Decisions += res.NDecisions
 			}
 			switch res.Outcome {
-			case "unsupported", "unwind", "budget", "panic":
+			case "unsupported", "unwind", "budget", "panic", "unknown-path":
 				inconc[res.Outcome+": "+truncStr(res.Msg, 1500)] = true
 			}
 			for f := range res.funcs {
